@@ -25,7 +25,7 @@ func TestC21Debug(t *testing.T) {
 	c := kit.NewCtx("C21", "quick", 1, 0, 8, dir)
 	seed, _ := strconv.ParseInt(os.Getenv("C21_SEED"), 10, 64)
 	profile, _ := strconv.Atoi(os.Getenv("C21_PROFILE"))
-	h := &c21Hist{c: c, seed: seed, profile: profile, idx: 0, verbose: os.Getenv("C21_QUIET") == "", saveBoundary: os.Getenv("C21_SAVE") != "", powCycle: os.Getenv("C21_CYCLE") != ""}
+	h := &c21Hist{c: c, seed: seed, profile: profile, idx: 0, verbose: os.Getenv("C21_QUIET") == "", saveBoundary: os.Getenv("C21_SAVE") != "", powCycle: os.Getenv("C21_CYCLE") != "", evidence: os.Getenv("C21_EVIDENCE") != ""}
 	if p, v, st := kit.Guard(h.run); p {
 		t.Logf("panic: %v\n%s", v, st)
 	}
